@@ -129,4 +129,20 @@ theorem decode_withCores (m : Mode) (cfg : Cfg) (k : Nat) (h : cfg.usePm = true)
     simp only [decode, decodeNuma, ht, hp, hs, numaShares_withCores, numaSockets_withCores]
 
 
+
+/-- the request built from the command line has `used_cores = 0` and the machine / mask given -/
+theorem cmdCfg_fields (cmd : Cmd) (t : Topo) (pm : Nat → Bool) (cfg : Cfg)
+    (h : cmdCfg cmd t pm = some cfg) :
+    cfg.t = t ∧ cfg.pm = pm ∧ cfg.usePm = !cmd.ignoreMask ∧ cfg.used = 0 ∧ 0 < cfg.n ∧
+    (cmd.cores = .dflt → cfg.maxCores = cfg.n) := by
+  unfold cmdCfg at h
+  simp only at h
+  split at h
+  · simp at h
+  · rename_i hn
+    simp only [Option.some.injEq] at h
+    subst h
+    refine ⟨rfl, rfl, rfl, rfl, by simp only; omega, ?_⟩
+    intro hc; simp [cmdCores, hc]
+
 end PikaVerif.Aff
